@@ -170,6 +170,11 @@ def check_c03(ctx):
         if new:
             prov = provs.get((aname, sname), 'unknown')
             state = ctx.pre_srv.get(sname, (None,))[0]
+            state_fn = getattr(ctx.truth, 'state_of', None)
+            if state == 'up' and state_fn is not None:
+                # what the scheduler believes is not enough: the state the
+                # master itself recorded for the server must agree
+                state = state_fn(sname) or state
             if state != 'up':
                 return ('C03:assigned-to-%s-server:prov=%s' % (state, prov),
                         '%s: %r -> %s which is %s' % (aname, before, sname,
@@ -532,6 +537,9 @@ def check_c08(ctx):
         # no new instance on a frozen or down server
         if post.server is not None and post.server != pre.server:
             state = ctx.pre_srv.get(post.server, (None,))[0]
+            state_fn = getattr(ctx.truth, 'state_of', None)
+            if state == 'up' and state_fn is not None:
+                state = state_fn(post.server) or state
             if state in ('down', 'frozen'):
                 return ('C08:placed-on-%s-server' % state,
                         '%s: %r -> %s which is %s' % (name, pre.server,
